@@ -499,6 +499,11 @@ func runStoreRollover(c *mon.Ctx, n int, t0 time.Time, kinds []string) {
 		if r.IntN(3) == 0 {
 			roots = append(roots, sim.Mint(sim.K(names[p[2]]), t0.Add(-time.Hour), t0.Add(3*time.Hour), 33).X509)
 		}
+		if r.IntN(4) == 0 {
+			// the same certificate listed twice in a row (metadata that names it under two uses)
+			i := r.IntN(len(roots))
+			roots = append(roots[:i+1], roots[i:]...)
+		}
 		configured := append([]*x509.Certificate{}, roots...)
 		store := &dsig.MemoryX509CertificateStore{Roots: roots}
 		sp, clk, _ := NewSP(t0, out)
@@ -520,6 +525,7 @@ func runStoreRollover(c *mon.Ctx, n int, t0 time.Time, kinds []string) {
 			w := NewWorld(now)
 			for _, signer := range []*sim.Cert{out, in} {
 				spec := sim.DefaultSig(signer.Key, signer)
+				spec.NoKeyInfo = r.IntN(4) == 0 // cannot be attributed: the store always holds several certificates
 				var doc string
 				switch kind {
 				case "logout-req", "logout-resp":
@@ -542,9 +548,9 @@ func runStoreRollover(c *mon.Ctx, n int, t0 time.Time, kinds []string) {
 				} else {
 					_, err = sp.ValidateEncodedResponse(enc)
 				}
-				want := (signer == out) == before
+				want := (signer == out) == before && !spec.NoKeyInfo
 				who := map[bool]string{true: "outgoing", false: "incoming"}[signer == out]
-				trace = append(trace, fmt.Sprintf("%s@%s:%v", who, map[bool]string{true: "before", false: "after"}[before], err == nil))
+				trace = append(trace, fmt.Sprintf("%s@%s%s:%v", who, map[bool]string{true: "before", false: "after"}[before], map[bool]string{true: "/no-keyinfo", false: ""}[spec.NoKeyInfo], err == nil))
 				if len(store.Roots) != len(configured) {
 					bad = true
 					cs.Violation("store-modified:"+kind, "validation changed the caller's certificate store: %d roots, configured %d (trace %v)", len(store.Roots), len(configured), trace)
